@@ -118,6 +118,17 @@ def gen_amr(rng, idx, quick):
     return lines, {"n": n, "l0": l0, "depth": depth, "nref": len(hist), "sig": (n, l0, tuple(hist))}
 
 
+def gen_amr_ngb(rng, idx, quick):
+    """an AMR case followed by set_ngbs with random periodicity flags (real code only)"""
+    lines, meta = gen_amr(rng, idx, quick)
+    lines = [l for l in lines if l[0] in "GR"]
+    per = (rng.below(2), rng.below(2), rng.below(2))
+    lines.append("B %d %d %d" % per)
+    meta = dict(meta)
+    meta["per"] = per
+    return lines, meta
+
+
 MORTON_CORPUS = [(0, 0, 0), (1, 0, 0), (0, 1, 0), (0, 0, 1), (2097151, 2097151, 2097151), (1048576, 0, 0), (0, 1048576, 0),
                  (0, 0, 1048576), (1048575, 1048575, 1048575), (1398101, 699050, 1398101), (699050, 1398101, 699050),
                  (2097151, 0, 0), (0, 2097151, 0), (0, 0, 2097151), (2097150, 2097150, 2097150)]
@@ -255,9 +266,9 @@ def split_outputs(lines, out):
         if k >= len(out):
             res.append(None)
             continue
-        if op == "E":
+        if op in ("E", "B"):
             f = out[k].split()
-            n = int(f[1]) if len(f) == 2 and f[0] == "E" and f[1].isdigit() else 0
+            n = int(f[1]) if len(f) == 2 and f[0] == op and f[1].isdigit() else 0
             if k + n + 2 > len(out):          # the process died inside the enumeration
                 res.append(None)
                 k = len(out)
@@ -341,6 +352,64 @@ def oracle_amr(ops, outs):
                 holders = [k2 for k2, (a2, s2) in cells.items() if all(a2[k] <= p[k] < a2[k] + s2[k] for k in range(3))]
                 if len(holders) != 1:
                     return "position %r lies in %d cells" % (p, len(holders))
+    return None
+
+
+def oracle_amr_ngb(ops, outs):
+    """neighbour pointers: a neighbour is a cell of the same or a coarser level that touches the face (with periodic
+    wrap where enabled, none only at an open box face), and same-level neighbours point back"""
+    g = ops[0].split()
+    n = [int(g[1]), int(g[2]), int(g[3])]
+    e = int(g[5])
+    off = [int(g[6]), int(g[7]), int(g[8])]
+    unit = math.ldexp(1.0, e - LAT)
+    bside = math.ldexp(1.0, e)
+    lo = [off[k] * unit for k in range(3)]
+    hi = [lo[k] + n[k] * bside for k in range(3)]
+    for op, o in zip(ops, outs):
+        if o is None:
+            return "no answer to %r (the real code stopped)" % op
+        f = op.split()
+        if f[0] != "B":
+            continue
+        per = [int(f[1]), int(f[2]), int(f[3])]
+        for c in o[1:-1]:
+            t = c.split()
+            key, lev = int(t[1]), int(t[2])
+            a = [vf.bits_dbl(int(t[3 + k], 16)) for k in range(3)]
+            s = [vf.bits_dbl(int(t[6 + k], 16)) for k in range(3)]
+            for d in range(6):
+                ax, high = d // 2, d & 1
+                at_face = (a[ax] + s[ax] == hi[ax]) if high else (a[ax] == lo[ax])
+                if t[9 + d] == "N":
+                    if not (at_face and not per[ax]):
+                        return "cell %d has no neighbour in direction %d although it is not at an open box face" % (key, d)
+                    continue
+                q = t[9 + d].split(",")
+                nl, single, back = int(q[0]), q[1] == "1", q[2] == "1"
+                na = [vf.bits_dbl(int(q[3 + k], 16)) for k in range(3)]
+                ns = [vf.bits_dbl(int(q[6 + k], 16)) for k in range(3)]
+                if at_face and not per[ax]:
+                    return "cell %d has a neighbour through an open box face (direction %d)" % (key, d)
+                if nl > lev:
+                    return "neighbour of cell %d in direction %d is on a deeper level (%d > %d)" % (key, d, nl, lev)
+                if nl < lev and not single:
+                    return "neighbour of cell %d in direction %d is a coarser cell that is refined" % (key, d)
+                if high:
+                    want = lo[ax] if at_face else a[ax] + s[ax]
+                    touch = na[ax] == want
+                else:
+                    want = hi[ax] if at_face else a[ax]
+                    touch = na[ax] + ns[ax] == want
+                if not touch:
+                    return "neighbour of cell %d in direction %d does not touch its face" % (key, d)
+                for k in range(3):
+                    if k != ax and not (na[k] <= a[k] and a[k] + s[k] <= na[k] + ns[k]):
+                        return "neighbour of cell %d in direction %d does not cover its face" % (key, d)
+                if nl == lev and not back:
+                    return "neighbour relation not mutual: cell %d -> direction %d -> same level cell that does not point back" % (key, d)
+                if nl < lev and back:
+                    return "coarser neighbour of cell %d points back to it" % key
     return None
 
 
@@ -457,8 +526,9 @@ def oracle_search(ops, outs):
     return None
 
 
-ORACLES = {"G": oracle_amr, "Z": oracle_morton, "C": oracle_cart, "OT": oracle_search, "PL": oracle_search}
-NAMES = {"G": "AMRGrid", "Z": "MortonKeyGenerator", "C": "CartesianDensityGrid", "OT": "Octree", "PL": "PointLocations"}
+ORACLES = {"G": oracle_amr, "Z": oracle_morton, "C": oracle_cart, "OT": oracle_search, "PL": oracle_search, "GN": oracle_amr_ngb}
+NAMES = {"G": "AMRGrid", "Z": "MortonKeyGenerator", "C": "CartesianDensityGrid", "OT": "Octree", "PL": "PointLocations",
+         "GN": "AMRGrid neighbour pointers"}
 
 
 # ---------------------------------------------------------------------------------------------------------------
@@ -501,6 +571,9 @@ def run(ck):
     for i in range(60 if quick else 500):
         ops, meta = gen_locations(rng, i, quick)
         cases.append(("PL", ops, meta))
+    for i in range(40 if quick else 300):
+        ops, meta = gen_amr_ngb(rng, i, quick)
+        cases.append(("GN", ops, meta))
     allops = []
     spans = []
     for kind, ops, meta in cases:
@@ -545,7 +618,7 @@ def run(ck):
                 j += len(ops)
     evals = 0
     nviol = 0
-    mism = {"G": 0, "Z": 0, "C": 0, "OT": 0, "PL": 0}
+    mism = {"G": 0, "Z": 0, "C": 0, "OT": 0, "PL": 0, "GN": 0}
     sigs = set()
     hist_depth, hist_blocks, hist_cart, hist_search = {}, {}, {}, {}
     failed_cases = set()
@@ -589,10 +662,14 @@ def run(ck):
                 bk = "%dx%dx%d per=%d%d%d" % (meta["n"] + meta["per"])
                 hist_cart[bk] = hist_cart.get(bk, 0) + 1
         else:
-            why = oracle_search(ops, oi)
-            nq = sum(1 for l in ops if l[0] == "Q")
+            why = ORACLES[kind](ops, oi)
+            if kind == "GN":
+                nq = sum(max(0, len(o) - 2) for op, o in zip(ops, oi) if op[0] == "B" and o)
+                hk = "AMRGrid set_ngbs: cells whose 6 neighbour pointers were checked"
+            else:
+                nq = sum(1 for l in ops if l[0] == "Q")
+                hk = "%s n=%d" % (NAMES[kind], meta["n"])
             evals += nq
-            hk = "%s n=%d" % (NAMES[kind], meta["n"])
             hist_search[hk] = hist_search.get(hk, 0) + nq
             if why:
                 mism[kind] += 1
@@ -623,7 +700,7 @@ def run(ck):
     cov["amr_depth_histogram"] = {str(k): v for k, v in sorted(hist_depth.items())}
     cov["amr_block_count_histogram"] = hist_blocks
     cov["cartesian_grids"] = len(hist_cart)
-    cov["search_queries_vs_brute_force"] = hist_search
+    cov["real_code_only_checks"] = hist_search
     cov["morton_triples"] = len(cases[[c[0] for c in cases].index("Z")][1])
     g0 = next(ci for ci, c in enumerate(cases) if c[0] == "G" and c[2]["nref"] >= 2)
     b, e = spans[g0]
@@ -640,7 +717,9 @@ def run(ck):
         "CORRESPONDENCE ONLY (exploration evidence, not proved): Octree::get_ngbs / get_ngbs_sphere / get_closest_ngb and PointLocations "
         "get_closest_neighbour / ngbiterator radius search are compared with brute force on random, clustered, lattice-like and face-hugging point "
         "sets; the Coq side only has the abstract pruning-soundness theorem C16_search_pruning_partial",
-        "NOT COVERED: Voronoi grids (C15 not applicable), AMR neighbour pointers (set_ngbs), the legacy photon traversal "
+        "CORRESPONDENCE ONLY as well: AMRGrid::set_ngbs neighbour pointers (same or coarser level, touch and cover the face, periodic wrap, same "
+        "level neighbours point back) are checked by a geometric oracle on the real code's output, not modelled in Coq",
+        "NOT COVERED: Voronoi grids (C15 not applicable), the legacy photon traversal "
         "CartesianDensityGrid::interact / AMRDensityGrid::interact (path / optical depth clauses of C16), AMRGrid::get_key(level, position), "
         "create_cell on partially built trees, Octree with fewer than 2 points",
     ]
